@@ -437,6 +437,7 @@ class _Count:
         self.buffers: Dict[str, Poly] = {}
         self.tables: Dict[str, int] = {}  # table name -> bytes per entry
         self.outs: Set[str] = _out_names(fn)
+        self.forced: Dict[str, int] = {}  # case split: header byte name -> value
 
     def bytes_of(self, e: ast.AST) -> Optional[Poly]:
         """Length in bytes of the value written."""
@@ -553,7 +554,7 @@ class _Count:
             self.buffers[name] = poly_eval(v.right, self.env)
             return
         if isinstance(v, ast.Call) and call_name(v) == "ord":
-            self.env[name] = Poly.atom(f"<file byte {name}>")
+            self.env[name] = Poly.const(self.forced[name]) if name in self.forced else Poly.atom(f"<file byte {name}>")
             return
         # row = iotostr(f.read(E))
         rd = _read_call(v)
@@ -567,7 +568,7 @@ class _Count:
             if isinstance(it, ast.List) and it.elts and all(isinstance(x, ast.List) for x in it.elts):
                 self.tables[name] = len(it.elts[0].elts)
             return
-        if isinstance(v, (ast.BinOp, ast.Constant, ast.Name)) or (isinstance(v, ast.Call) and call_name(v) in ("int", "ord", "getsize")):
+        if isinstance(v, (ast.BinOp, ast.Constant, ast.Name, ast.IfExp)) or (isinstance(v, ast.Call) and call_name(v) in ("int", "ord", "getsize")):
             p = poly_eval(v, self.env)
             if isinstance(v, ast.Call) and call_name(v) == "ord":
                 p = Poly.atom(f"<file byte {name}@{st.lineno}>")
@@ -630,6 +631,28 @@ def d4(ctx: Ctx):
         for conds_path, stmts in paths:
             cnt = _Count(dec, fn, D.nested(fn))
             feasible = True
+
+            def _again(forced, stmts=stmts):
+                """announced / written bytes of this path with some header bytes fixed (case split)."""
+                c2 = _Count(dec, fn, D.nested(fn))
+                c2.forced = forced
+                for st in stmts:
+                    if isinstance(st, tuple):
+                        v = _const_test(st[1], c2.env)
+                        if v is not None and v != st[2]:
+                            return None
+                        continue
+                    if isinstance(st, ast.Assign):
+                        c2.track_assign(st)
+                    elif isinstance(st, ast.FunctionDef):
+                        c2.nested = dict(c2.nested)
+                        c2.nested[st.name] = st
+                if not args:
+                    return None
+                a2 = poly_eval(args[0], c2.env) * poly_eval(args[1], c2.env) * Poly.const(bps)
+                w2 = c2.count([s_ for s_ in after if not any(c is call for c in ast.walk(s_))])
+                return a2.normalise()[0], w2.normalise()[0]
+
             for st in stmts:
                 if isinstance(st, tuple):
                     v = _const_test(st[1], cnt.env)
@@ -685,6 +708,44 @@ def d4(ctx: Ctx):
                 msg = f"header announces {wn} x {hn}, the loops write {written!r}{where}: equal only if {' and '.join(unmet)}, which the option validator (check_positive) does not ensure"
                 fb = []
             key = dec if not fb else f"{dec}.file-field"
+            if fb:
+                # the field is unvalidated (a finding of its own); independently of that, a well-formed file -
+                # one whose field has its nominal value - must get exactly the announced count
+                def _subst(p_: Poly, atom: str, c: int) -> Poly:
+                    out = Poly()
+                    for k, co in p_.terms.items():
+                        rest = tuple(a for a in k if a != atom)
+                        out = out + Poly({rest: co * (c ** (len(k) - len(rest)))})
+                    return out
+
+                nominal = [c for c in range(1, 1025) if _subst(wr_n, fb[0], c) == an_n]
+                if not nominal:
+                    # case split over the values of one header byte (both sides are functions of it)
+                    hdr = sorted(n_ for n_, p_ in cnt.env.items() if p_ == Poly.atom(f"<file byte {n_}>"))
+                    for hb in hdr:
+                        cands = None
+                        for v_ in range(256):
+                            r_ = _again({hb: v_})
+                            if r_ is None:
+                                continue
+                            fbs = [a for k in r_[1].terms for a in k if a.startswith("<file byte ")] or [fb[0]]
+                            good = {c for c in range(1, 1025) if _subst(r_[1], fbs[0], c) == r_[0]}
+                            cands = good if cands is None else cands & good
+                            if not cands:
+                                break
+                        if cands:
+                            nominal = sorted(cands)
+                            break
+                okn = len(nominal) == 1
+                ctx.ob(
+                    f"{dec}:nominal",
+                    okn,
+                    "" if okn else f"no value of the file field {fb[0]} makes the {written!r} bytes written equal the announced {announced!r}: header and payload loops disagree even for a well-formed file",
+                    file=rel,
+                    line=call.lineno,
+                    facts={"nominal_value": nominal[:3]},
+                    props=["C18", "C16"],
+                )
             ctx.ob(key, False, msg, file=rel, line=call.lineno, facts=facts, witness=("an option value violating: " + ", ".join(unmet)) if unmet else "", props=["C18"] if unmet else ["C19"])
         if all_ok:
             ctx.ob(dec, True, file=rel, line=call.lineno, facts=last_facts)
@@ -726,7 +787,7 @@ def _paths(stmts: List[ast.stmt], limit: int = 64) -> List[Tuple[List[str], List
     return [(c, a) for c, a, alive in paths if alive]
 
 
-@rule("D4b", "DERIVED-HEIGHT: MAX derives its height as floor(8 * length / width) and refuses a length that is not a whole number of rows", ["C18"], floor=2)
+@rule("D4b", "DERIVED-HEIGHT: MAX derives its height as floor(8 * length / width) and refuses a length that is not a whole number of rows", ["C18", "C16"], floor=2)
 def d4b(ctx: Ctx):
     D = decoderfacts(ctx)
     fn = D.fn("maxtoppm", "convert")
@@ -1085,7 +1146,7 @@ def d7(ctx: Ctx):
 VEF_TYPES = {0: (320, 200, 16, 80, 8), 1: (640, 200, 4, 80, 7), 3: (320, 200, 4, 40, 6), 4: (640, 200, 2, 40, 5)}
 
 
-@rule("D12", "VEF-TYPES: the VEF type byte selects the documented geometry; squashed records use the 128 threshold", ["C16", "C17", "C18"], floor=5)
+@rule("D12", "VEF-TYPES: the VEF type byte selects the documented geometry; squashed records use the 128 threshold", ["C16", "C17", "C18", "C19"], floor=5, default_props=["C16", "C17", "C18"])
 def d12(ctx: Ctx):
     D = decoderfacts(ctx)
     st = D.fn("veftopng", "start")
@@ -1102,11 +1163,11 @@ def d12(ctx: Ctx):
             if len(ints) == 5:
                 eq = isinstance(n.test.ops[0], ast.Eq)
                 found[k] = (ints, eq, n.lineno)
-    ctx.need(len(found) >= 4, "veftopng.types", f"only {len(found)} type branches recognised")
+    ctx.need(len(found) >= 2, "veftopng.types", f"only {len(found)} `if data[1] == k` type branches recognised (idiom lost)")
     for k, want in VEF_TYPES.items():
         got = found.get(k)
         ok = got is not None and got[1] and sorted(got[0]) == sorted(want)
-        ctx.ob(f"veftopng.type{k}", ok, "" if ok else f"VEF type byte {k} selects {got[0] if got else None} (test is equality: {got[1] if got else None}); documented: width/height/colours/record length/screen type = {want}", file=rel, line=got[2] if got else st.lineno, props=["C16", "C18"])
+        ctx.ob(f"veftopng.type{k}", ok, "" if ok else f"VEF type byte {k} selects {got[0] if got else None} (test is equality: {got[1] if got else None}); documented: width/height/colours/record length/screen type = {want}", file=rel, line=got[2] if got else st.lineno, props=["C16", "C18", "C17", "C19"])
     # palette = bytes 2..17, image data from byte 18
     from .pyast import ast_contains as _ac
 
@@ -1132,6 +1193,10 @@ def d12(ctx: Ctx):
             okw = okw and isinstance(tt.ops[0], ast.Lt)
     ctx.ob("unsquash.loop-bounds", okw, "" if okw else "the repeat / literal loops no longer run exactly `count` times", file=rel, line=un.lineno, props=["C17"])
     lenp = un.args.args[-1].arg if un.args.args else "?"
+    outer = next((n for n in un.body if isinstance(n, ast.While)), None)
+    cntp = un.args.args[1].arg if len(un.args.args) > 2 else "?"
+    okb = outer is not None and isinstance(outer.test, ast.Compare) and isinstance(outer.test.ops[0], ast.Lt) and isinstance(outer.test.comparators[0], ast.Name) and outer.test.comparators[0].id == cntp
+    ctx.ob("unsquash.record-bound", okb, "" if okb else f"the record loop runs on `{unparse(outer.test) if outer is not None else None}`, not up to the length `{cntp}` the record's count byte announces: a truncated last record is decoded from whatever bytes are left and the short picture is reported as success", file=rel, line=outer.lineno if outer is not None else un.lineno, props=["C19", "C17"])
     trunc = _ac(un, f"$d[0:{lenp}]") or _ac(un, f"$d[:{lenp}]")
     ctx.ob("unsquash.truncate", trunc, "" if trunc else "records are no longer truncated to the nominal record length", file=rel, line=un.lineno, props=["C17"])
 
@@ -1279,3 +1344,43 @@ def _dests(st: ast.FunctionDef) -> Set[str]:
                 if k.arg == "dest" and isinstance(k.value, ast.Constant):
                     out.add(k.value.value)
     return out
+
+
+def _is_discarded_read(e: ast.AST) -> bool:
+    """`f.read(n)` possibly wrapped in pure converters, as a statement of its own."""
+    while isinstance(e, ast.Call) and call_name(e) in ("iotostr", "ord", "strtoio", "bytes", "bytearray", "len") and len(e.args) == 1:
+        e = e.args[0]
+    return isinstance(e, ast.Call) and call_name(e) == "read" and isinstance(e.func, ast.Attribute)
+
+
+@rule("D14", "SKIP-ONCE: bytes that are read and thrown away (header filler, the -s prefix, an unused header field) are consumed once per file, before the payload loops", ["C16", "C18"], floor=4)
+def d14(ctx: Ctx):
+    D = decoderfacts(ctx)
+    for dec in ("hrstoppm", "maxtoppm", "pixtopgm", "mgetoppm", "cm3toppm", "rattoppm"):
+        rel = DECODERS[dec]
+        fn = D.fn(dec, "convert")
+        n = 0
+
+        def walk(stmts, in_loop):
+            nonlocal n
+            for st in stmts:
+                if isinstance(st, ast.Expr) and _is_discarded_read(st.value):
+                    n += 1
+                    ok = not in_loop
+                    ctx.ob(
+                        f"{dec}.skip#{n}",
+                        ok,
+                        "" if ok else f"`{unparse(st.value)}` discards input inside a loop: a block that occurs once in the file (the pattern block, the skipped prefix) is skipped once per page / row, so every later byte of a multi-page picture is misaligned",
+                        file=rel,
+                        line=st.lineno,
+                    )
+                elif isinstance(st, (ast.For, ast.While)):
+                    walk(st.body, True)
+                    walk(st.orelse, in_loop)
+                elif isinstance(st, ast.If):
+                    walk(st.body, in_loop)
+                    walk(st.orelse, in_loop)
+                elif isinstance(st, (ast.With, ast.Try)):
+                    walk(st.body, in_loop)
+
+        walk(fn.body, False)
